@@ -93,6 +93,23 @@ Example c03_nonvacuous :
   = [ROk; ROk; RSink [11; 12]%Z].
 Proof. vm_compute. reflexivity. Qed.
 
+(* ---- exactly once, end to end, for a whole call (Model/Conf.v, Proofs/ConfNet.v) ----
+   On a plain bench (scripts of sends and queries, every model added) a call of the net model that ends
+   with an empty pool has picked a list L of messages - the handler / replier / init invocations it
+   logged plus the sink writes it performed - which is, as a multiset, exactly the messages present at
+   the start plus everything the invoked handlers sent (after each connection's map / filter):
+   nothing lost, nothing duplicated, nothing invented, whatever the schedule. *)
+Require Import NX.Model.Conf NX.Proofs.ConfProofs NX.Proofs.ConfNet.
+
+Theorem c03_processed_is_exactly_what_was_sent :
+  forall b fuel ch s nd s' nd',
+    bench_plain b = true -> NInv s -> net_run b fuel ch s nd = Some (s', nd') -> pool_of b s' = [] ->
+    exists L, Permutation L (pool_of b s ++ flat_map (bench_react b) L) /\
+              invs (log s') = rev (filter cm_logged L) ++ invs (log s) /\
+              sinks s' = fold_left sink_apply L (sinks s).
+Proof. exact net_processed_is_sent. Qed.
+Print Assumptions c03_processed_is_exactly_what_was_sent.
+
 (* ---- the blocking protocol of the mailbox channel (Model/Chan.v) ----
    Sim.v lets a send proceed exactly when the target mailbox has room and a model start exactly when its
    mailbox holds a message.  Chan.v models what channel.rs does to achieve this (senders parked on an
